@@ -108,16 +108,20 @@ the model only says of *which* column) -/
 inductive Val where
   | q (r : Rat)
   | pct (p : Nat) (col : List Int)
+  /-- NaN: the mean / percentile of a column without rows (written as an empty cell) -/
+  | nan
   deriving DecidableEq
 
 def Val.toRat : Val → Rat
   | .q r => r
   | .pct _ _ => 0
+  | .nan => 0
 
 /-- the statistics computed from one file of each kind, and which files the real code accepts at
-all: it raises on a selected timeseries / emissions / estimate file without data rows
-(`np.percentile` of an empty column: IndexError; `groupby(...).apply` of an empty frame:
-AttributeError) and the whole summarisation stops.  `ts`/`emis`/`est` say nothing about rejected files. -/
+all: it raises on a selected file it cannot summarise and the whole summarisation stops.  For the
+mapper's own statistics (`concreteStats`) that is an estimate file without data rows
+(`groupby(...).apply` of an empty frame: AttributeError); since 813cfa3 timeseries / emissions files
+without rows are summarised (NaN cells / a row of zeros).  `est` says nothing about rejected files. -/
 structure Stats (κ : Type) where
   ts : κ → List Val
   emis : κ → List Val
@@ -404,7 +408,7 @@ inductive Content where
   | other
 
 def sumI (l : List Int) : Rat := ((l.foldl (· + ·) 0 : Int) : Rat)
-/-- only meaningful for a non-empty column (`okTs` / `okEmis` below guard every use) -/
+/-- only meaningful for a non-empty column (`meanV` guards every use) -/
 def meanI (l : List Int) : Rat := sumI l / (l.length : Rat)
 def sumR (l : List Rat) : Rat := l.foldl (· + ·) 0
 def meanR (l : List Rat) : Rat := sumR l / (l.length : Rat)
@@ -475,15 +479,28 @@ def extrapolated (rows : List EstRow) (year : Nat) : Rat := extrapolateInfo (sit
 def col4 (rows : List (Int × Int × Int × Int)) (i : Nat) : List Int :=
   rows.map fun r => match i with | 0 => r.1 | 1 => r.2.1 | 2 => r.2.2.1 | _ => r.2.2.2
 
-/-- Timeseries Summary statistics in the mapper's order -/
+/-- `df[col].mean()`: NaN for a column without rows -/
+def meanV (l : List Int) : Val := if l.isEmpty then .nan else .q (meanI l)
+
+/-- `get_nth_percentile` (since 813cfa3: NaN for a column without rows) -/
+def pctV (p : Nat) (l : List Int) : Val := if l.isEmpty then .nan else .pct p l
+
+/-- `merged.fillna(0)` of the Emissions Summary -/
+def fill0 : Val → Val
+  | .nan => .q 0
+  | v => v
+
+/-- Timeseries Summary statistics in the mapper's order (a timeseries without rows gives NaN cells
+and a total cost of 0) -/
 def tsStat : Content → List Val
   | .ts rows =>
     let e := col4 rows 0; let m := col4 rows 1; let n := col4 rows 2; let c := col4 rows 3
-    [.q (meanI e), .q (meanI m), .q (meanI n), .pct 95 e, .pct 95 m, .pct 95 n, .pct 5 e, .pct 5 m,
-     .pct 5 n, .q (meanI c), .q (sumI c), .pct 95 c, .pct 5 c]
+    [meanV e, meanV m, meanV n, pctV 95 e, pctV 95 m, pctV 95 n, pctV 5 e, pctV 5 m,
+     pctV 5 n, meanV c, .q (sumI c), pctV 95 c, pctV 5 c]
   | _ => []
 
-/-- Emissions Summary statistics in the mapper's order, then the yearly ones -/
+/-- Emissions Summary statistics in the mapper's order, then the yearly ones (an emissions file
+without rows — a simulation without any emission — gives a row of zeros: NaN cells are filled) -/
 def emisStat (years : List Nat) : Content → List Val
   | .emis rows =>
     let tv := rows.map (·.trueVol)
@@ -491,7 +508,8 @@ def emisStat (years : List Nat) : Content → List Val
     [.q (sumI (rows.map (·.mitigated))), .q (sumI tv), .q (sumI (rows.map (·.estVol))),
      .q (sumI ((rows.filter (·.repairable)).map (·.trueVol))),
      .q (sumI ((rows.filter (fun r => !r.repairable)).map (·.trueVol))),
-     .q (meanI tr), .pct 95 tr, .pct 5 tr, .q (meanI tv), .pct 95 tv, .pct 5 tv]
+     fill0 (meanV tr), fill0 (pctV 95 tr), fill0 (pctV 5 tr), fill0 (meanV tv), fill0 (pctV 95 tv),
+     fill0 (pctV 5 tv)]
     ++ years.map (fun y => .q (yearlyShare (rows.map fun r => (r.mitigated, r.ended, r.theory)) y))
     ++ years.map (fun y => .q (yearlyShare (rows.map fun r => (r.trueVol, r.began, r.ended)) y))
   | _ => []
@@ -507,8 +525,8 @@ def repStat (years : List Nat) : Content → List Rat
 def concreteStats (years : List Nat) : Stats Content :=
   { ts := tsStat, emis := emisStat years, est := estStat years, rep := repStat years,
     nEmis := 11 + 2 * years.length, nYears := years.length,
-    okTs := fun c => match c with | .ts rows => !rows.isEmpty | _ => false,
-    okEmis := fun c => match c with | .emis rows => !rows.isEmpty | _ => false,
+    okTs := fun _ => true,
+    okEmis := fun _ => true,
     okEst := fun c => match c with | .est rows => !rows.isEmpty | _ => false }
 
 end LdarModel.Summary
